@@ -796,6 +796,12 @@ func (db *Default) ProfileByHumanID(
 		go db.removeHumanID(ctx, k, db.mapsGen)
 
 		return nil, nil, fmt.Errorf("%s: rechecking human id: %w", errPrefix, ErrDeviceNotFound)
+	} else if p.ID != id {
+		// The device has been moved to another profile, so the key, which
+		// contains the ID of the previous one, is stale.
+		go db.removeHumanID(ctx, k, db.mapsGen)
+
+		return nil, nil, fmt.Errorf("%s: rechecking profile: %w", errPrefix, ErrDeviceNotFound)
 	}
 
 	return p, d, nil
